@@ -208,16 +208,23 @@ def run(ctx):
                 rs.unrec("%s on %s towers: %s" % (t["cls"], t["family"], t.get("note", "")))
                 continue
             (s5, s10), (c5, c10) = t["steps"], t["calls"]
-            if c10 > 13 or s10 > 3 * s5:
+            (v5, v10), (n5, n10) = t["service_calls"], t["nodes"]
+            fam_name = {"bool": "Boolean tower x' = And(x, x)", "arith": "arithmetic tower x' = x + x",
+                        "times": "tower x' = 2 * (x + y)"}[t["family"]]
+            if c10 > n10 or s10 > 3 * s5:
                 ctx.finding(rs, "%s|work-grows-with-paths|%s" % (t["cls"], t["family"]),
-                            "%s: a %s tower x' = op(x, x) of depth 10 (13 distinct nodes, 1024 paths) costs %d "
-                            "interpreted steps and %d handler calls against %d / %d at depth 5: traversal work follows "
-                            "the number of paths, not of nodes"
-                            % (t["cls"].split(".")[-1], {"bool": "Boolean And", "arith": "arithmetic Plus"}[t["family"]],
-                               s10, c10, s5, c5), loc)
+                            "%s: a %s of depth 10 (%d distinct nodes) costs %d interpreted steps and %d handler calls "
+                            "against %d / %d at depth 5: traversal work follows the number of paths, not of nodes"
+                            % (t["cls"].split(".")[-1], fam_name, n10, s10, c10, s5, c5), loc)
+            elif v10 > n10:
+                ctx.finding(rs, "%s|service-recomputed|%s" % (t["cls"], t["family"]),
+                            "%s: on a %s of depth 10 (%d distinct nodes) the handlers of the environment's free-variables "
+                            "service run %d times (%d at depth 5): every question about a node re-traverses the cone below it"
+                            % (t["cls"].split(".")[-1], fam_name, n10, v10, v5), "pysmt/oracles.py")
             else:
                 rs.ok({"class": t["cls"].split(".")[-1], "tower": t["family"], "tower_depths": [5, 10], "interpreted_steps": t["steps"],
-                       "handler_calls": t["calls"], "rule": "steps(10) <= 3*steps(5), calls(10) == distinct nodes"})
+                       "handler_calls": t["calls"], "free_variables_service_calls": t["service_calls"], "distinct_nodes": t["nodes"],
+                       "rule": "steps(10) <= 3*steps(5), handler calls and service calls <= distinct nodes"})
         ctx.floor(rs, 40)
 
     if ctx.want("R3"):
@@ -243,4 +250,4 @@ def run(ctx):
     if ctx.want("R4"):
         rs = ctx.rule("R4", "real manager: the cost of one construction does not grow with the size of its operands")
         from . import mgr_deep
-        mgr_deep.report(ctx, rs, mgr_deep.cost_results(), "pysmt/formula.py", 2)
+        mgr_deep.report(ctx, rs, mgr_deep.cost_results(), "pysmt/formula.py", 4)
